@@ -453,6 +453,55 @@ fn priority_case(cx: &mut Cx, r: &mut Rng) {
     }
 }
 
+/// A template included from inside a component body sees what the body sees (parameters, the body's own assignments and
+/// loop variables) and nothing of the caller: not its context, assignments or loop variables, nor the global context —
+/// however the component is reached (template call, call from an include, call inside a loop, the API).
+fn isolation_through_include_case(cx: &mut Cx, r: &mut Rng) {
+    let probe = "probe[{{ cv | default(value=\"hidden\") }}|{{ gv | default(value=\"hidden\") }}|{{ p | default(value=\"noarg\") }}|{{ local | default(value=\"nolocal\") }}|{{ lv | default(value=\"noloopvar\") }}|{{ cs | default(value=\"hidden\") }}|{{ inner | default(value=\"noinner\") }}]";
+    let nested = r.bool();
+    let comp = if nested {
+        "{% component card(p) %}{% set local = 1 %}{% for inner in [7] %}{% include \"mid\" %}{% endfor %}{% endcomponent %}"
+    } else {
+        "{% component card(p) %}{% set local = 1 %}{% for inner in [7] %}{% include \"probe\" %}{% endfor %}{% endcomponent %}"
+    };
+    let site = r.below(4);
+    let page = match site {
+        0 => "{% set cs = 5 %}{{ <card p={\"arg\"} /> }}",
+        1 => "{% set cs = 5 %}{% for lv in [1] %}{{ <card p={\"arg\"} /> }}{% endfor %}",
+        2 => "{% set cs = 5 %}{% for lv in [1] %}{% include \"viainc\" %}{% endfor %}",
+        _ => "{% set cs = 5 %}{% set cap %}{% for lv in [1] %}{{ <card p={\"arg\"} /> }}{% endfor %}{% endset %}{{ cap }}",
+    };
+    let tpls: Vec<(String, String)> = vec![("probe".into(), probe.into()), ("mid".into(), "{% include \"probe\" %}".into()), ("comps".into(), comp.into()), ("viainc".into(), "{{ <card p={\"arg\"} /> }}".into()), ("page".into(), page.into())];
+    let expected = "probe[hidden|hidden|arg|1|noloopvar|hidden|7]";
+    cx.eval();
+    let res = guard(|| {
+        let mut t = Tera::default();
+        t.autoescape_on(Vec::<&'static str>::new());
+        t.global_context().insert("gv", "GLOBAL");
+        t.add_raw_templates(tpls.clone()).map_err(|e| format!("add: {e}"))?;
+        let mut c = Context::new();
+        c.insert("cv", "CALLER");
+        let a = t.render("page", &c).map_err(|e| e.to_string())?;
+        let mut k = Context::new();
+        k.insert("p", "arg");
+        let b = t.render_component("card", &k, None, false).map_err(|e| e.to_string())?;
+        Ok::<_, String>((a, b))
+    });
+    cx.cell(format!("isolation-through-include|site{site}|{}", if nested { "nested-include" } else { "direct-include" }));
+    cx.count("isolation_through_include_checks", 1);
+    match res {
+        Ok(Ok((a, b))) => {
+            for (how, o) in [("template call", a), ("render_component", b)] {
+                if o != expected {
+                    cx.violation("C05/caller-or-global-visible-through-include-in-body", format!("{how}: the template included from the component body rendered {o:?}, isolation gives {expected:?}"), json!({"templates": tpls}));
+                }
+            }
+        }
+        Ok(Err(e)) => cx.violation("C05/isolation-program-fails", format!("{e}"), json!({"templates": tpls})),
+        Err(p) => cx.violation(&format!("C05/panic/{}", panic_site(&p)), format!("{p}"), json!({"templates": tpls})),
+    }
+}
+
 fn recursion_case(cx: &mut Cx, r: &mut Rng) {
     let shapes: [(&str, &str, bool); 7] = [
         ("self", "{% component r(n) %}{{ <r n={n + 1} /> }}{% endcomponent %}{{ <r n={0} /> }}", false),
@@ -515,6 +564,10 @@ pub fn run(cx: &mut Cx) {
             19 => {
                 cx.begin_case(case, "recursion");
                 recursion_case(cx, &mut r);
+            }
+            16 => {
+                cx.begin_case(case, "isolation-through-include");
+                isolation_through_include_case(cx, &mut r);
             }
             _ => {
                 cx.begin_case(case, "binder");
